@@ -94,7 +94,7 @@ func c02Run(c *mon.Ctx, unit int) {
 			case want == model.Unspec:
 				c.Count("oracle unspecified (not compared)", 1)
 				if obs.Panic != "" {
-					c.Violate("validate", c02Case{text, doc}, "no panic", obs.String(), "Validate panicked")
+					c.Violate("vpanic", c02Case{text, doc}, "no panic", obs.String(), "Validate panicked")
 				}
 			case obs.Verdict() != want.String():
 				fresh := lib.Validate(lib.Spec{Text: text}, doc)
@@ -145,6 +145,11 @@ func init() {
 				var cs c02Case
 				json.Unmarshal(raw, &cs)
 				return lib.Validate(lib.Spec{Text: cs.Schema}, cs.Doc).Verdict()
+			},
+			"vpanic": func(raw json.RawMessage) string {
+				var cs c02Case
+				json.Unmarshal(raw, &cs)
+				return noPanic(lib.Validate(lib.Spec{Text: cs.Schema}, cs.Doc))
 			},
 			"check": func(raw json.RawMessage) string {
 				var cs c02Case
